@@ -187,6 +187,29 @@ func init() {
 			{Dir: "gcs", Name: "ZZ_C14_serialise", Variant: "bytes<=8", Tiers: "thorough", Reach: []string{"end"}, Tweak: params(false, "maxbytes", 8)},
 		},
 	})
+	wireStubs := func(kv ...interface{}) func(c *sym.HarnessCfg, tier string) {
+		return func(c *sym.HarnessCfg, tier string) {
+			c.Stubs = map[string]string{
+				"(*github.com/gcash/bchd/wire.MsgTx).TxHash":              "zzStubTxHash",
+				"(*github.com/gcash/bchd/wire.MsgBlock).BlockHash":        "zzStubBlockHash",
+				"(*github.com/gcash/bchd/wire.MsgBlock).SerializeSize":    "zzStubSerializeSize",
+				"(*github.com/gcash/bchd/wire.MsgBlock).Serialize":        "zzStubSerialize",
+				"(*github.com/gcash/bchd/wire.MsgBlock).Deserialize":      "zzStubDeserialize",
+				"(*github.com/gcash/bchd/wire.MsgBlock).DeserializeTxLoc": "zzStubDeserializeTxLoc",
+			}
+			for i := 0; i+1 < len(kv); i += 2 {
+				c.Params[kv[i].(string)] = kv[i+1].(int)
+			}
+		}
+	}
+	reg(&PropSpec{
+		ID: "C16",
+		Harnesses: []HarnessSpec{
+			{Dir: "root", Name: "ZZ_C16_block", Variant: "tx<=2,steps=2", Reach: []string{"end"}, Tweak: wireStubs("maxtx", 2, "steps", 2)},
+			{Dir: "root", Name: "ZZ_C16_tx", Reach: []string{"end"}, Tweak: wireStubs()},
+			{Dir: "root", Name: "ZZ_C16_block", Variant: "tx<=2,steps=3", Tiers: "thorough", Reach: []string{"end"}, Tweak: wireStubs("maxtx", 2, "steps", 3)},
+		},
+	})
 	meta("C01", []string{
 		"SHA-256 and RIPEMD-160 are uninterpreted functions (same symbol inside the code under test and in the harness reference)",
 		"the CashAddr reference encoder in harness/root/common.go is a correct transcription of the specification",
